@@ -68,7 +68,7 @@ def run_runner(build, d, args, timeout=120):
     env.update({"VERIF_EXEC_LOG": log, "LD_LIBRARY_PATH": build["libdir"], "ASAN_OPTIONS": "detect_leaks=0"})
     env.pop("CGREEN_NO_FORK", None); env.pop("CGREEN_PER_TEST_TIMEOUT", None)
     try:
-        p = subprocess.run([build["runner"]] + args, cwd=d, env=env, stdout=subprocess.PIPE, stderr=subprocess.STDOUT, timeout=timeout)
+        p = vlib.run_group([build["runner"]] + args, cwd=d, env=env, stdout=subprocess.PIPE, stderr=subprocess.STDOUT, timeout=timeout)
         rc, out = p.returncode, p.stdout.decode("latin-1")
     except subprocess.TimeoutExpired as ex:
         rc, out = None, (ex.stdout or b"").decode("latin-1")
@@ -123,6 +123,10 @@ def gen_libs(chk):
             i = rng.randrange(len(tests))
             tests[i] = (tests[i][0], tests[i][1], "crash")
         libs.append(("lib%d" % k, tests))
+    # legal C identifiers that contain the separator of the specification symbols, or end in '_'
+    libs.append(("libsep", [("Stack", "push__on_empty", True), ("Stack", "push__on_full", True), ("Stack", "pop__returns_last", True),
+                            ("Stack", "pop", True), (None, "a__b", True), (None, "a", True), ("Queue", "x_", True), ("Queue", "x", True),
+                            ("Queue", "y___z", True)]))
     return libs
 
 
@@ -132,6 +136,8 @@ def patterns_for(rng, tests, tier):
     c, n = t[0] or "default", t[1]
     pats += ["%s:%s" % (c, n), "*:*", "%s:*" % c, "*:%s" % n, "%s*:%s*" % (c[:1], n[:1]), "%s:%s*" % (c, n[:2]),
              "%s:*%s" % (c, n[-2:]), "nosuch:*", "%s:nosuch" % c, "*:nosuch*", "*%s:*%s" % (c[1:], n[1:])]
+    if any("__" in x[1] for x in tests):
+        pats += ["Stack:push__on_full", "Stack:push", "Stack:push*", "Stack:pop", "Stack:pop__*", "a__b", "a", "Queue:x_", "Queue:x", "Queue:y___z", "*:*__*"]
     if any(x[1] == "shared" for x in tests):
         pats += ["*:shared", "%s*:shared" % c[:1], "*%s:shared" % c[-1:]]
     if not t[0]:
@@ -153,7 +159,7 @@ def patterns_for(rng, tests, tier):
             seen.add(p); out.append(p)
     if tier == "thorough":
         return out
-    keep = [p for p in out if p is not None and p.endswith(":shared")][:2]
+    keep = [p for p in out if p is not None and p.endswith(":shared")][:2] + [p for p in out if p is not None and ("__" in p or p in ("Stack:push", "Stack:pop", "a", "Queue:x_", "Queue:x"))]
     rest = [p for p in out[1:] if p not in keep]
     return out[:1] + keep + rng.sample(rest, min(6, len(rest)))
 
